@@ -708,4 +708,90 @@ theorem rt_ingredientP (c : AComp) (p : CPad) (s : BP α) (hwf : c.wf s.cs s.ext
     rw [hcq]
     exact ⟨rfl, hl, hunit⟩
 
+/-! ### cookware -/
+
+theorem foldl_insert_contains (mods : List TK) :
+    ∀ (m : Modifiers), m.bits < 32 → (∀ k ∈ mods, modKind k = true) → ∀ j, modKind j = true →
+      (mods.foldl (fun m k => m.insert (flagOf k)) m).contains (flagOf j) = (m.contains (flagOf j) || decide (j ∈ mods)) := by
+  induction mods with
+  | nil => intro m _ _ j _; simp
+  | cons k rest ih =>
+    intro m hb hk j hj
+    have hs := bits_step m.bits hb k j (hk k (by simp)) hj
+    rw [List.foldl_cons, ih _ hs.1 (fun x hx => hk x (by simp [hx])) j hj, hs.2]
+    by_cases hjk : j = k
+    · subst hjk; simp
+    · have : (k == j) = false := by rw [beq_eq_false_iff_ne]; exact fun h => hjk h.symm
+      simp [this, hjk]
+
+theorem modsOf_no_recipe (mods : List TK) (hk : mods.all modKind = true) (hat : mods.contains .at = false) :
+    (modsOf mods).contains Modifiers.RECIPE = false := by
+  have := foldl_insert_contains mods Modifiers.empty (by decide) (by rw [List.all_eq_true] at hk; exact hk) .at rfl
+  have e : (modsOf mods).contains Modifiers.RECIPE =
+      (mods.foldl (fun m k => m.insert (flagOf k)) Modifiers.empty).contains (flagOf .at) := rfl
+  rw [e, this]
+  have hni : TK.at ∉ mods := by simpa using hat
+  simp [hni]
+  decide
+
+/-- the parsed cookware quantity is the intended one -/
+def CwQtyMatches : Option AQty → Option (Loc (PQValue α)) → Prop
+  | none, none => True
+  | some q, some pq => pq.val.value.val = q.val.denote ∧ pq.val.lock.isSome = q.lock
+  | _, _ => False
+
+def CwMatches (cs : CharSpec) (c : AComp) (cw : PCookware α) : Prop :=
+  cw.name.trimmed cs = leafText c.name ∧ cw.alias.map (fun t => t.trimmed cs) = c.alias.map leafText ∧
+  cw.note.map (fun t => t.trimmed cs) = c.note.map leafText ∧ cw.modifiers.val = modsOf c.mods ∧
+  CwQtyMatches c.qty cw.quantity
+
+theorem rt_cookwareP (c : AComp) (p : CPad) (s : BP α) (hwfc : c.wfCookware s.cs s.ext = true) (hp : p.ok s.cs = true)
+    (A ts rest : List Tok) (hs : Spells ts (spellCookware c p)) (ht : s.toks = A ++ (ts ++ rest))
+    (hc : s.cur = A.length) (hrest : restOK c rest = true) (hrun : RunAt (baseOff s.toks) s.toks) :
+    ∃ cw : PCookware α,
+      cookwareP s = (some (.cookware ⟨cw, ⟨offAt s.toks A.length, offAt s.toks (A.length + ts.length)⟩⟩),
+        { s with cur := A.length + ts.length }) ∧ CwMatches s.cs c cw := by
+  simp only [AComp.wfCookware, Bool.and_eq_true, Bool.not_eq_true'] at hwfc
+  obtain ⟨⟨hwf, hnoat⟩, hnounit⟩ := hwfc
+  obtain ⟨tm, mt, nameT, Q, tob, tcb, name, alias, note, c2, c3, h1, h2, h3, h4, h5, hnameNE, hnameT, haliasT, hnoteT,
+    hmt, hQ, -, hrunQ, hQany⟩ := rt_comp_steps .hash (tk .hash ['#']) rfl c p s hwf hp A ts rest hs ht hc hrest hrun
+  have hwf' := hwf
+  simp only [AComp.wf, Bool.and_eq_true] at hwf'
+  obtain ⟨⟨⟨⟨⟨⟨⟨⟨hname, hmk⟩, hmnd⟩, hmext⟩, hmhead⟩, hnor⟩, halias⟩, hnote⟩, hqty⟩ := hwf'
+  simp only [CPad.ok, Bool.and_eq_true] at hp
+  obtain ⟨⟨⟨⟨hpn1, hpa0⟩, hpa1⟩, hpq⟩, hpe⟩ := hp
+  obtain ⟨mspan, hpm⟩ := parseModifiers_run (α := α) c.mods mt (offAt s.toks (A.length + 1))
+    ({ s with cur := A.length + ts.length } : BP α) hmt hmk (by simpa using hmnd)
+  have hce := checkEmptyName_run "cookware" name ({ s with cur := A.length + ts.length } : BP α) hnameNE
+  have hrec := modsOf_no_recipe c.mods hmk hnoat
+  unfold cookwareP
+  simp only [bind, StateT.bind, currentOffset_run, h1, h2, h3, h4, h5, hce, hQany]
+  cases hcq : c.qty with
+  | none =>
+    simp only [Option.isSome_none, Bool.false_eq_true, if_false, pure, StateT.pure, hpm, hrec, hc]
+    refine ⟨_, rfl, ?_⟩
+    refine ⟨hnameT, haliasT, hnoteT, rfl, ?_⟩
+    rw [hcq]; trivial
+  | some q =>
+    rw [hcq] at hQ hqty hnounit
+    simp only [Bool.and_eq_true, Bool.or_eq_true, Bool.not_eq_true'] at hqty
+    obtain ⟨vspan, lspan, unitT, sep, hpq', hl, hunit, hsep⟩ := rt_parseQuantity q p.q
+      ({ s with cur := A.length + ts.length } : BP α) hqty.1.1 hpq
+      (by intro hr; rcases hqty.1.2 with h | h; · rw [hr] at h; cases h
+          · exact h)
+      (by intro ha; rcases hqty.2 with h | h; · rw [ha] at h; cases h
+          · exact h)
+      Q hQ hrunQ
+    have hun : unitT = none := by
+      have hqn : q.unit = none := by simpa using hnounit
+      rw [hqn] at hunit
+      cases unitT <;> simp_all
+    subst hun
+    simp only [Option.isSome_some, if_true, bind, StateT.bind, hpq', pure, StateT.pure, hpm, hrec,
+      Bool.false_eq_true, if_false, hc]
+    refine ⟨_, rfl, ?_⟩
+    refine ⟨hnameT, haliasT, hnoteT, rfl, ?_⟩
+    rw [hcq]
+    exact ⟨rfl, hl⟩
+
 end Cook
